@@ -362,4 +362,10 @@ theorem reser_all :
           exact h5
         · simp only [pairsOf_cons, hkk, List.map_cons, keysOf, c]
 
+/-- without COLOR a NULL `jso` and a null child print the same bytes: the whole tree is a child slot at level 0 -/
+theorem serialize_eq_child (flags : Nat) (v : JVal) (hc : (Fl.ofNat flags).color = false) :
+    serialize fmt flags v = serChild fmt (Fl.ofNat flags) 0 v := by
+  cases v <;> try rfl
+  simp [serialize, serChild, withColor, hc]
+
 end JsonC.Serialize
